@@ -25,11 +25,14 @@ ASSUME = ['memory model (DESIGN 3.3): all atomics of the protocol are SeqCst exc
 
 def run(ctx):
     ctx.trusted_base, ctx.assumptions = TB, ASSUME
-    if not ctx.harness(['ls_iter', 'sh_probe']):
+    if not ctx.harness(['ls_iter', 'p_nested_iter', 'sh_probe']):
         return
     ctx.translate(COMPONENTS)
     ctx.prove('props/C09.v')
     L.lockstep(ctx, [L.mon_c09], ['c09'])
+    L.instr_sweep(ctx, L.C09_KINDS)
+    ctx.coverage['rule_instruction_sweep'] = ('one more delivery (real handler, sigqueue) at every instruction boundary of pending() / wait() / forever().next(), '
+                                              'SignalOnly and WithRawSiginfo, 23 configurations of earlier deliveries incl. bursts longer than the buffer; fork per boundary')
     ctx.coverage['rule'] = ('scenarios {wait | Forever::next | poll_signal | pending + several live batches} x {1-2 deliveries of 1-2 signals, add_signal from another thread, close}: every split point of each activity '
                             'against the others (the delivery between the consumer\'s drain and its scan, between store and wake, ...), random 2-preemption and random run-length schedules; monitors on the '
                             'real traces: consumer blocked on the self-pipe (scheduler deadlock report: nothing readable) while a slot is set, its handlers are past their wake and no handed-out batch is open; '
@@ -39,6 +42,8 @@ def run(ctx):
 def replay(ctx, path):
     case = json.load(open(path))
     sc = case.get('case', {}).get('scenario')
+    if case.get('case', {}).get('instr_sweep'):
+        return L.instr_replay(ctx, case['case'], L.C09_KINDS)
     if not sc:
         print('replay file names no concrete input:', json.dumps(case.get('broken'), indent=1)[:2000])
         return 1
